@@ -31,6 +31,11 @@ def check(ctx, R):
         li = LockInfo(ctx, roles)
         n = rule_with_only(ctx, R, roles, li, "LOCK-with")
         R.count("LOCK-with[%s]" % roles.tag, n, 9)
+        from ..locks import rule_lock_objects
+        rule_lock_objects(ctx, R, roles, li)
+        from .c11 import loop_rules
+        from ..engine import terms as _terms
+        loop_rules(ctx, R, roles, _terms(ctx))       # a loop that can spin for ever (under a lock) makes close() block
         _reset_before_connect(ctx, R, roles)
         _census(ctx, R, roles)
         _exc(ctx, R, roles)
@@ -179,8 +184,8 @@ def _exc(ctx, R, roles):
     """EXC: handlers that swallow may enclose nothing but the user's progress callback."""
     count = 0
     for f in roles.mod.all_funcs:
-        if f.cls not in (roles.dev_cls, roles.io_cls):
-            continue
+        if f.cls is not None and f.cls not in (roles.dev_cls, roles.io_cls) and roles.dev_cls not in ctx.pkg.mro(f.cls):
+            continue          # helper classes of the module (e.g. the in-memory stream wrapper); module-level functions are included
         g = ctx.cfg(f)
         for n in walk_own(f.node):
             if not isinstance(n, ast.Try) or not n.handlers:
